@@ -59,6 +59,8 @@ func IsModuleAddr(addr sdk.AccAddress) bool                      { sym(); return
 func RandChoiceMode(on bool)                                     { sym() }
 func ModuleAddr(name string) sdk.AccAddress                      { sym(); return nil }
 func Blocked(addr sdk.AccAddress) bool                           { sym(); return false }
+// TypeConfusion: some stored record has been decoded as a record of another type on this path.
+func TypeConfusion() bool                                        { sym(); return false }
 func StoreWrites() int                                           { sym(); return 0 }
 func EventCount() int                                            { sym(); return 0 }
 func TblGet(tbl string, k1 []byte, k2 string) *big.Int           { sym(); return nil }
